@@ -885,4 +885,47 @@ theorem tamper_control_block (H : Hashes) (hL : ∀ m, (H.tapLeaf m).length = 32
   · exact Or.inr (Or.inr (Or.inr (Or.inl hc)))
   · exact Or.inr (Or.inr (Or.inr (Or.inr hc)))
 
+/-! ## the `_leaves` memo is transparent -/
+
+theorem MTree.erase_fresh : ∀ t : Tree, (MTree.fresh t).erase = t
+  | .leaf _ => rfl
+  | .branch l r => by simp [MTree.fresh, MTree.erase, MTree.erase_fresh l, MTree.erase_fresh r]
+
+theorem MTree.memoOK_fresh : ∀ t : Tree, (MTree.fresh t).MemoOK
+  | .leaf _ => trivial
+  | .branch l r => ⟨MTree.memoOK_fresh l, MTree.memoOK_fresh r, fun m h => by cases h⟩
+
+/-- one call of `leaves()` on an object satisfying the invariant: the answer is the leaf list of the tree, the tree
+    itself is unchanged, and the invariant is kept -/
+theorem MTree.leavesM_spec : ∀ t : MTree, t.MemoOK →
+    t.leavesM.1 = t.erase.leaves ∧ t.leavesM.2.erase = t.erase ∧ t.leavesM.2.MemoOK
+  | .leaf _, _ => ⟨rfl, rfl, trivial⟩
+  | .branch l r (some m), h => ⟨h.2.2 m rfl, rfl, h⟩
+  | .branch l r none, h => by
+    obtain ⟨a1, a2, a3⟩ := MTree.leavesM_spec l h.1
+    obtain ⟨b1, b2, b3⟩ := MTree.leavesM_spec r h.2.1
+    refine ⟨?_, ?_, a3, b3, ?_⟩
+    · simp only [MTree.leavesM, MTree.erase, Tree.leaves, a1, b1]
+    · simp only [MTree.leavesM, MTree.erase, a2, b2]
+    · intro m hm
+      simp only [MTree.leavesM, Option.some.injEq] at hm
+      rw [← hm]
+      simp only [MTree.erase, Tree.leaves, a1, b1, a2, b2]
+
+/-- any history of `leaves()` calls on any nodes reached from a fresh object: iterate -/
+def MTree.leavesIter : Nat → MTree → List (List Leaf) × MTree
+  | 0, t => ([], t)
+  | n + 1, t => let a := t.leavesM; let r := MTree.leavesIter n a.2; (a.1 :: r.1, r.2)
+
+theorem MTree.leavesIter_spec : ∀ (n : Nat) (t : MTree), t.MemoOK →
+    (MTree.leavesIter n t).1 = List.replicate n t.erase.leaves ∧ (MTree.leavesIter n t).2.erase = t.erase ∧
+      (MTree.leavesIter n t).2.MemoOK
+  | 0, _, h => ⟨rfl, rfl, h⟩
+  | n + 1, t, h => by
+    obtain ⟨a1, a2, a3⟩ := MTree.leavesM_spec t h
+    obtain ⟨b1, b2, b3⟩ := MTree.leavesIter_spec n t.leavesM.2 a3
+    refine ⟨?_, ?_, b3⟩
+    · simp only [MTree.leavesIter, b1, a1, a2, List.replicate_succ]
+    · simp only [MTree.leavesIter, b2, a2]
+
 end Buidl.Taproot
